@@ -159,8 +159,10 @@ def dump_histories(sh, root, r, n_hist, rep_counts, viols, nontrivial, samples):
                 viols.append(["rule-dump-not-written", wit]); break
             removed = [n for n in before if n not in after]
             kept = [n for n in before if n in after]
-            if removed and kept and max(removed) > min(kept):
-                viols.append(["rule-dump-removed-is-not-the-oldest", wit]); break
+            # age = the order in which this history saw the dumps appear (not their names): nothing that is kept may be older than something removed
+            age = {n: i for i, n in enumerate(seen_order)}
+            if removed and kept and all(n in age for n in removed + kept) and max(age[n] for n in removed) > min(age[n] for n in kept):
+                viols.append(["rule-dump-removed-is-not-the-oldest", dict(wit, creation_order=seen_order[-8:])]); break
             seen_order.append(new[0])
             time.sleep(0.002)
         stop_ren.set()
@@ -183,7 +185,11 @@ def event_histories(r, n_hist, rep_counts, viols, nontrivial, samples, root):
             pre = r.randrange(0, cap + 2)
             os.makedirs(d, exist_ok=True)
             for k in range(min(pre, cap)):   # files left by an earlier run with the same settings (never more than the cap)
-                open(os.path.join(d, "%d.json" % (1000 + k)), "w").write("[]")
+                # an earlier run that was killed inside an event-file write leaves the temp file of that write behind (never consumed by the reader)
+                leftover_tmp = r.random() < 0.35
+                open(os.path.join(d, ("%d.tmp" if leftover_tmp else "%d.json") % (1000 + k)), "w").write("[]")
+                if leftover_tmp:
+                    rep_counts["preexisting_tmp_files_of_a_killed_writer"] = rep_counts.get("preexisting_tmp_files_of_a_killed_writer", 0) + 1
             sh.call("event_logger_start", dir=d, interval_ms=5, max_files=cap)
             maxseen = 0
             for burst in range(r.randrange(3, 12)):
@@ -227,7 +233,7 @@ def run(tier, rep):
     rep.coverage["rule"] = ("real RollingLogger / AuthorizationRulesForLogging::write_all / event_logger::start through the shim on scratch directories with small limits (size 256B-8KiB, count 1-6, caps 1-5); "
                             "histories = PRNG sequences of writes of 0..3x limit (write and write_many), restarts that find the files of the earlier run (same settings), event bursts above the queue bound, rule-set changes, "
                             "foreign files with similar names; the directory is listed after every operation (event directory: polled while the logger runs). invariants: files of the log <= count; no file larger than "
-                            "limit + last write; event files <= cap; rule dumps <= cap and the removed ones are the oldest by name, also while the shared directory cannot be listed cleanly (dangling symlink, files renamed by a concurrent roller). non-trivial = history that rolls more than count times or restarts, or reaches a cap; "
+                            "limit + last write; event files <= cap; rule dumps <= cap and the removed ones are the oldest in the observed creation order (event directory: leftover .tmp files of a killed writer count as files), also while the shared directory cannot be listed cleanly (dangling symlink, files renamed by a concurrent roller). non-trivial = history that rolls more than count times or restarts, or reaches a cap; "
                             "distinct by (kind, limits, pattern class)")
     r = common.rng("c19", tier)
     root = tempfile.mkdtemp(prefix="gpa-verif.", dir="/var/tmp")
